@@ -523,7 +523,7 @@ class C08(Config):
               "From V.C08 Require Import Sql Model ModelT Spec Corr Wf.\n"
               "Local Open Scope Z_scope.")
     bin = "c08"
-    n_tags = 36
+    n_tags = 39
     classes = {}
     shard_size = 120
     rule = ("wallet histories on the real SQLite backend, half of them on a local network with NU6.3/Ironwood active and a 12-block ZIP 318 grid (receipts into 2 accounts x 3 shielded pools, canonical-denomination payments to Orchard receivers, external spends, "
